@@ -38,6 +38,11 @@ def showAnswer : Option Bytes → String
 def showScan (r : Run) : String :=
   if r.isEmpty then "empty" else joinWith "," (r.map fun e => toHex e.key ++ ":" ++ toHex e.val)
 
+/-- a run with everything an entry carries, in the form the harness dumps a table file: `k:seq:d:v;…` -/
+def showRunFull (r : Run) : String :=
+  if r.isEmpty then "empty" else
+  joinWith ";" (r.map fun e => toHex e.key ++ ":" ++ toString e.seq ++ ":" ++ (if e.del then "1" else "0") ++ ":" ++ toHex e.val)
+
 /-- spec scan: live keys with the prefix in ascending order with their latest values -/
 def specScan (m : Spec) (p : Bytes) : Run :=
   let keys := (m.map (·.key)).eraseDups
@@ -132,10 +137,14 @@ def step (st : St) (ws : List String) : St × String :=
       match applyActs st [.flushBegin (natOr n)] with
       | some st' => (st', "flushbegin " ++ toString ((st'.s.flushing.getD []).length))
       | none => ({ st with bad := true }, "disabled " ++ n)
-    | ["flushcommit", n] =>
-      let cnt := (st.s.flushing.getD []).length
+    | "flushcommit" :: n :: rest =>
+      -- with a third hint word the implementation dumped the tables it appended to level 0: the model answers with
+      -- its own flush snapshot (one table per sealed memtable, every entry with key, seq, marker, value)
+      let snap := st.s.flushing.getD []
+      let cnt := snap.length
+      let tbls := if rest.isEmpty then "" else " tbl=" ++ joinWith "|" (snap.map showRunFull)
       match applyActs st [.flushCommit] with
-      | some st' => ({ st' with flushQ := st'.flushQ - 1, compactQ := st'.compactQ + 1 }, "flushcommit " ++ toString cnt)
+      | some st' => ({ st' with flushQ := st'.flushQ - 1, compactQ := st'.compactQ + 1 }, "flushcommit " ++ toString cnt ++ tbls)
       | none => ({ st with bad := true }, "disabled " ++ n)
     | ["compact", lvl, rm, add] =>
       let l := natOr (lvl.drop 1).toString
